@@ -226,6 +226,8 @@ def stack_instance(fname, D, F, lead=()):
             return bf.get_mvdr_vector_souden(tgt, noi, ref_channel=0)
         if fname == 'wmwf':
             return bf.get_wmwf_vector(tgt, noi, reference_channel=1, distortion_weight=0.5)
+        if fname == 'wmwf-fd':
+            return bf.get_wmwf_vector(tgt, noi, reference_channel=1, distortion_weight='frequency_dependent')
         if fname == 'gev':
             return bf.get_gev_vector(tgt, noi)
         if fname == 'pca':
@@ -259,7 +261,7 @@ def stack_instance(fname, D, F, lead=()):
             for ti in np.ndindex(*tail):
                 yield 'stacked-equals-single[%s,%s]' % (li, ti), sp.eq(cf[li + ti], cp[(0,) + ti])
 
-    return Instance('C13', BF + {'mvdr': 'get_mvdr_vector', 'souden': 'get_mvdr_vector_souden', 'wmwf': 'get_wmwf_vector', 'gev': 'get_gev_vector',
+    return Instance('C13', BF + {'mvdr': 'get_mvdr_vector', 'souden': 'get_mvdr_vector_souden', 'wmwf': 'get_wmwf_vector', 'wmwf-fd': 'get_wmwf_vector', 'gev': 'get_gev_vector',
                                  'pca': 'get_pca_vector', 'ban': 'blind_analytic_normalization', 'rank1_pca': 'get_pca_vector'}[fname],
                     'stack-%s-D%dF%d-lead%s' % (fname, D, F, 'x'.join(map(str, lead)) or '0'), make, call, ensures, patches=patches,
                     crosscheck=False, timeout=20.0, max_paths=64, native_n=3, check_feasible=False)
@@ -480,12 +482,18 @@ def instances(tier):
     out.append(wrapper_instance('pca', 2, 2, {'scaling': 'trace'}))
     out.append(wrapper_instance('rank1_pca+mvdr_souden', 2, 2, {'ref_channel': 0, 'atf_kwargs': {'scaling': 'eigenvalue'}}))
     out.append(wrapper_instance('gev', 2, 2, {'use_eig': False}))
+    out.append(wrapper_instance('pca+mvdr', 2, 2, {'atf_kwargs': {'scaling': 'trace'}}))
+    out.append(wrapper_instance('scaled_gev_atf+mvdr', 2, 2, {'atf_kwargs': {'use_eig': True}}))
+    out.append(wrapper_instance('rank1_pca+wmwf', 2, 2, {'reference_channel': 1, 'atf_kwargs': {'scaling': 'trace'}}))
     out.append(apply_instance((), 2, 2))
     out.append(apply_instance((2,), 2, 2))
     out.append(apply_instance((2, 2), 2, 1))
     for fn in ('mvdr', 'souden', 'wmwf'):      # eigen-solver based functions: per-bin solver calls are C12 obligations
         out.append(stack_instance(fn, 2, 2))
     out.append(stack_instance('mvdr', 2, 2, (2,)))
+    out.append(stack_instance('wmwf', 2, 2, (2,)))
+    out.append(stack_instance('wmwf-fd', 2, 2, (2,)))
+    out.append(stack_instance('souden', 2, 2, (2,)))
     out.append(phase_instance((), 2, 1))
     out.append(phase_instance((), 3, 1))
     out.append(phase_instance((2,), 3, 1))
